@@ -227,6 +227,7 @@ func schedChild(args []string) int {
 		}
 	case "warm":
 		it := harness.NewInterp()
+		c06InitObserve(it)
 		k := 2 + t.Intn(5)
 		nprog := 1 + t.Intn(4)
 		progs := make([][]string, k)
